@@ -485,7 +485,17 @@ class RefSem:
                            % (site["name"], site["line"], tok_desc(f)))
         if st == "partial":
             self.tf_early(cid, f)
-        if st == "done" and last is not None:
+        if st == "done" and last is not None and f["pos"] < last["pos"]:
+            # the task is reported finished before the last notification of its own body
+            self.v("C07", "tf_before_body_done", "task-finished %s is issued before %s, the end of the task's body" % (tok_desc(f), tok_desc(last)))
+            task = self.tm.get(site["name"])
+            kind = task["body"][-1]["k"] if task and task["body"] else "svc"
+            p2 = self.LAST_PROP.get(kind)
+            if p2 and p2 != "C07":
+                self.v(p2, "task_finished_before_%s_done" % kind,
+                       "task %s (instance %r) ends with a %s statement; the task is reported finished (%s) before that statement has completed (%s)"
+                       % (site["name"], cid, kind, tok_desc(f), tok_desc(last)))
+        elif st == "done" and last is not None:
             try:
                 self.handover(last, f, "task_finished", "C07")
             except Mismatch as m:
@@ -899,6 +909,10 @@ def fanout(case, calls, flat, stats):
     groups = 0
     for ci, c in enumerate(calls):
         op = c["op"]
+        if op["op"] == "witness":
+            for p in ("C20", "C18", "C17"):
+                out.append({"prop": p, "rule": "other_scheduler_reached", "msg": "another scheduler of the same process (never started) was reached by this run: %r" % (c.get("witness_events"),)})
+            continue
         if op["op"] == "reg":
             k, fn = op["kind"], op["fn"]
             expect = fn not in regs[k]
